@@ -249,13 +249,19 @@ func ParseParameters(query string) []oid.Oid {
 		// NOTE: we have to check whether the returned match is a
 		// positional parameter or an un-positional parameter.
 		// SELECT * FROM users WHERE id = ?
-		if match[1] == "" {
+		if match[1] == "" && len(parameters) < buffer.MaxPreparedStatementArgs {
 			parameters = append(parameters, 0)
 		}
 
-		position, _ := strconv.Atoi(match[1]) //nolint:errcheck
-		if position > len(parameters) {
-			parameters = parameters[:position]
+		// NOTE: a positional index outside of the protocol limits (or one
+		// that does not fit an int) could never be bound and is ignored.
+		position, err := strconv.Atoi(match[1])
+		if err != nil || position > buffer.MaxPreparedStatementArgs {
+			continue
+		}
+
+		for position > len(parameters) {
+			parameters = append(parameters, 0)
 		}
 	}
 
